@@ -32,6 +32,15 @@ func Equal(x, y any) bool {
 func equalValue(x, y reflect.Value) bool {
 	// Copied from src/reflect/deepequal.go, omitting the visited check (because JSON
 	// values are trees).
+
+	// Step through interfaces and pointers, as validation does: JSON equality
+	// does not depend on how the Go value is wrapped.
+	for x.Kind() == reflect.Pointer || x.Kind() == reflect.Interface {
+		x = x.Elem()
+	}
+	for y.Kind() == reflect.Pointer || y.Kind() == reflect.Interface {
+		y = y.Elem()
+	}
 	if !x.IsValid() || !y.IsValid() {
 		return x.IsValid() == y.IsValid()
 	}
@@ -48,7 +57,20 @@ func equalValue(x, y reflect.Value) bool {
 		return false
 	}
 	if x.Kind() != y.Kind() {
-		return false
+		// A Go array and a Go slice both hold a JSON array.
+		isArray := func(k reflect.Kind) bool { return k == reflect.Array || k == reflect.Slice }
+		if !isArray(x.Kind()) || !isArray(y.Kind()) {
+			return false
+		}
+		if x.Len() != y.Len() {
+			return false
+		}
+		for i := range x.Len() {
+			if !equalValue(x.Index(i), y.Index(i)) {
+				return false
+			}
+		}
+		return true
 	}
 	switch x.Kind() {
 	case reflect.Array:
